@@ -236,6 +236,44 @@ def run(ctx):
         r.undecided('backend table subscripts', loc='src/erasurecode.c', msg='no variable subscript of ec_backends_supported found')
     r.require_min(2)
 
+    # ---------------- R13j counts are signed
+    r = ctx.rule('R13j', 'decode / reconstruct: a loop bounded by the caller\'s fragment count compares it as a signed value (or only after the count is known to be non-negative)',
+                 'a negative count widened to size_t is about 2^64: the loop walks off the end of the caller\'s array instead of not running')
+    from ..poly import PolyCtx as _PC13j, Poly as _P13j
+    from ..loops import loops_of as _lo13j
+    from ..guards import PolyFacts as _PF13j
+    nj13 = 0
+    for fname in ('liberasurecode_decode', 'liberasurecode_reconstruct_fragment'):
+        fj, cpj = shared.param_by_name(ctx, P, fname, 'num_fragments')
+        pcj = _PC13j(P, fj)
+        want_atom = f'arg{cpj}'
+        for Lj in _lo13j(P, fj, pcj):
+            for (xb, xs) in Lj.exits:
+                tt = xb.insts[-1]
+                cj = fj.defs.get(tt.ops[0]) if tt.op == 'br' and tt.ops else None
+                from ..guards import implied_atoms as _ia13j
+                for at_, tv_ in (_ia13j(fj, tt.ops[0], True) + _ia13j(fj, tt.ops[0], False)) if cj is not None else []:
+                    if (at_.ty or '').endswith('*'):
+                        continue
+                    sides = [pcj.val(o) for o in at_.ops[:2]]
+                    if not any(want_atom in p_.atoms() for p_ in sides):
+                        continue
+                    nj13 += 1
+                    inst = f'{fname}: loop bound on num_fragments at line {at_.line}'
+                    if at_.pred[0] != 'u':
+                        r.ok(inst + ' is a signed comparison', func=fj.name, loc=at_.loc)
+                        continue
+                    PF = _PF13j(P, fj, Lj.header, pc=pcj)
+                    for ka in {a_ for q_ in PF.ge for a_ in q_.atoms() if a_.endswith('.uargs.k')}:
+                        PF.ge.append(_P13j.atom(ka) - _P13j.const(1))          # every instance has k >= 1 (R13d)
+                    if PF.ge0(_P13j.atom(want_atom)):
+                        r.ok(inst + ': unsigned, but the count is known to be non-negative there', func=fj.name, loc=at_.loc)
+                    else:
+                        r.fail(inst, func=fj.name, sig='fragment count compared as an unsigned value', loc=at_.loc,
+                               msg=f'{fname} bounds a loop over the caller\'s fragments with an unsigned comparison against num_fragments (line {at_.line}) and nothing '
+                                   'before it rules out a negative count: -1 becomes 2^64 - 1 iterations over an array of num_fragments pointers')
+    r.require_min(2)
+
     # ---------------- R13e divisors
     r = ctx.rule('R13e', 'front-end divisions: divisor built only from k and the byte word size',
                  'a zero divisor is a SIGFPE on an accepted instance')
